@@ -22,7 +22,7 @@ RULE = ('error kinds {404, 405, 400 undecodable path, 400 malformed chunked body
         'string, Host and X-Forwarded-Host; observed through Ombott.__call__ with debug off. Non-trivial = a marker reached the request; '
         'distinct = distinct (error kind, rendering, marker placement and payload).')
 PYOPT = {'quick': 1, 'thorough': 1}     # one unit of every kind is also served by an interpreter started with -O (assert statements compiled out)
-REQUIRED = ['units_run_under_python_-O', 'debugging_application_in_same_process', 'tag_structure_compared_with_baseline', 'html_pages_parsed', 'json_bodies_parsed', 'marker_ids_found_escaped', 'kind_404', 'kind_405', 'kind_400_path', 'kind_400_body',
+REQUIRED = ['units_run_under_python_-O', 'stock_page_reached_through_default_error_handler()', 'third_error_of_a_chain_rendered', 'debugging_application_in_same_process', 'tag_structure_compared_with_baseline', 'html_pages_parsed', 'json_bodies_parsed', 'marker_ids_found_escaped', 'kind_404', 'kind_405', 'kind_400_path', 'kind_400_body',
             'kind_413', 'kind_500', 'kind_last_resort', 'in_query', 'in_host', 'in_path', 'format_syntax_markers']
 ASSUMPTIONS = ['debug is off', 'text the application itself supplies (abort(400, "<i>..")) is not request data',
                'the page is HTML: markup is what html.parser recognises as a tag, attribute or entity']
@@ -170,6 +170,28 @@ def build_app():
     return app
 
 
+def build_delegating_app():
+    """The same routes; its error handlers do something of their own (here: count) and then hand over to the framework's stock page
+    through the public Ombott.default_error_handler(err) - the page is still framework-generated.  A 451 handler answers with another
+    error, whose handler answers with a third one (rendered by the stock page)."""
+    app = build_app()
+    seen = {'n': 0}
+    for code in (404, 405, 400, 413, 500):
+        def h(err, _c=code):
+            seen['n'] += 1
+            return app.default_error_handler(err)
+        app.error(code)(h)
+    return app
+
+
+def build_chain_app():
+    import ombott
+    app = build_app()
+    app.error(404)(lambda err: ombott.HTTPError(403, 'second error'))
+    app.error(403)(lambda err: ombott.HTTPError(410, 'third error'))
+    return app
+
+
 def build_lr_app():
     """application whose error handler itself fails -> last-resort page"""
     import ombott
@@ -282,11 +304,21 @@ def tag_structure(body):
     return pg.tags, sorted(set(a[0] for a in pg.attrs)), len(pg.comments), len(pg.decls)
 
 
-def run_kind(ctx, app, lr_app, rng, i, kind, as_json):
+def run_kind(ctx, app, lr_app, rng, i, kind, as_json, more_apps=None):
     qs, headers, path_extra, markers, places = make_case(rng, i, kind)
     accept = rng.choice(['application/json', 'application/json, text/html;q=0.5', 'application/json; charset=utf-8'])
     rc = rng.random()
     env, exp, markers, target, headers = build_env(rc, kind, qs, headers, path_extra, markers, as_json, accept)
+    variant = None
+    if more_apps and target == 'app' and not isinstance(exp, tuple):
+        variant = ('plain', 'delegating', 'plain', 'chained' if kind == '404' else 'delegating')[(i // len(KINDS) // 2) % 4]
+        if variant == 'delegating':
+            app = more_apps['delegating']
+            ctx.count('stock_page_reached_through_default_error_handler()')
+        elif variant == 'chained':
+            app = more_apps['chained']
+            exp = 410
+            ctx.count('third_error_of_a_chain_rendered')
     r = call_app(app if target == 'app' else lr_app, env)
     # baseline: same placements, bare marker ids
     bqs, bheaders, bpath, bmarkers, _ = make_case(rng, i, kind, benign_of=places)
@@ -358,6 +390,7 @@ def run_unit(ctx, unit):
     rng = ctx.rng
     app = build_app()
     lr_app = build_lr_app()
+    more = {'delegating': build_delegating_app(), 'chained': build_chain_app()}
     # debug is a per-application setting: a debugging application created later in the same process must not
     # switch the exception text and traceback on for the applications under test
     import ombott
@@ -368,4 +401,4 @@ def run_unit(ctx, unit):
     ctx.count('debugging_application_in_same_process')
     for i in range(unit['n']):
         kind = KINDS[i % len(KINDS)]
-        run_kind(ctx, app, lr_app, rng, i, kind, as_json=(i // len(KINDS)) % 2 == 1)
+        run_kind(ctx, app, lr_app, rng, i, kind, as_json=(i // len(KINDS)) % 2 == 1, more_apps=more)
